@@ -75,7 +75,7 @@ class syntax_error(SourceFeedback):
         # Some syntax errors have no position (e.g., source code with null bytes)
         if line is None:
             line = 1
-        files = report.submission.get_files_lines()
+        files = report.submission.get_files_lines() if report.submission is not None else {}
         if filename not in files:
             files[filename] = code.split("\n")
         if report.submission is not None:
@@ -87,7 +87,7 @@ class syntax_error(SourceFeedback):
         exception_name = get_exception_name(exception)
         exception_name_proper = add_indefinite_article(exception_name)
         traceback = ExpandedTraceback(exception, exc_info, False,
-                                      [report.submission.instructor_file],
+                                      [report.submission.instructor_file] if report.submission is not None else [],
                                       line_offsets, [filename], lines, files)
         traceback_stack = traceback.build_traceback()
         traceback_message = traceback.format_traceback(traceback_stack, report.format)
